@@ -483,6 +483,12 @@ func luaCase(env *core.Env, idx int) *core.CaseResult {
 	for i := range jobs {
 		distinct[solo[i]] = true
 		for rep := range conc {
+			if strings.Contains(conc[rep][i], "context deadline exceeded") || strings.Contains(solo[i], "context deadline exceeded") {
+				// the interpreter's own 1 s wall-clock deadline fired (96 VMs at once on a loaded machine): that is the
+				// deadline doing its job, not one call's data leaking into another - recorded, not judged
+				res.Count("lua_calls_not_judged_deadline_under_load", 1)
+				continue
+			}
 			if conc[rep][i] != solo[i] {
 				res.Violate("c19:lua:concurrent-answer-differs:"+jobs[i].name, "a Lua call run concurrently with others returned a different answer than the same call run alone",
 					gen.NF{"script": jobs[i].name, "obj": jobs[i].obj, "solo": solo[i], "concurrent": conc[rep][i]})
